@@ -146,11 +146,11 @@ class Instantiator:
             return {c["env"]["$z"][0][0]}
         if e[0] == "ctor" and e[1] == "Variable":
             n = dict(e[2])["name"]
-            if n[0] == "each" and n[1][0] == "call" and n[1][1] == "Term::variables":
+            if n[0] in ("each", "at") and n[1][0] == "call" and n[1][1] == "Term::variables":
                 src = n[1][2][0]
                 t = c["env"]["$t"] if src[0] == "ctor" else self.operand(src, c)
                 return set(term_vars(t))
-            if n[0] == "each" and n[1][0] == "call" and n[1][1] == "Formula::variables":
+            if n[0] in ("each", "at") and n[1][0] == "call" and n[1][1] == "Formula::variables":
                 f = n[1][2][0]
                 if f[0] == "call" and f[1].endswith("::val"):
                     sub = self.sub_formula(f, c)
